@@ -257,6 +257,15 @@ def check_drop(ctx):
     ex, paths = ctx.run(pat, cache_key='dbdrop', loop_bound=2, no_inline=[r'FlushManager::clear$', r'JournalManager::clear$', r'StopSignal::send$'])
     bad = []
     for p in paths:
+        if p.status == 'loop_bound':
+            # the wait loop while worker threads are still counted (the counter is not changed by this thread: the loop is cut by the bound)
+            lds = [e for e in p.events if e.kind == 'ATOMIC_LOAD' and 'active_thread_counter' in obj_name(e)]
+            blk = [e for e in p.events if e.kind == 'CALL' and e.args.get('callee', '').endswith('Sender::send') and lds and e.idx > lds[0].idx]
+            if blk:
+                ob.reach += 1
+                bad.append((p, 'the wait loop of DatabaseInner::drop sends close messages with a blocking send into the bounded worker queue: with a worker that is itself about to send into that '
+                               'queue (rotation -> flush request) the queue fills up and drop and worker block each other; background threads never stop and the directory stays locked'))
+            continue
         if p.status != 'returned':
             continue
         loads = [e for e in p.events if e.kind == 'ATOMIC_LOAD' and 'active_thread_counter' in obj_name(e)]
@@ -269,6 +278,12 @@ def check_drop(ctx):
         clears = [e.args.get('callee', '') for e in p.events if e.kind == 'CALL']
         if not any(c.endswith('FlushManager::clear') for c in clears) or not any(c.endswith('JournalManager::clear') for c in clears):
             bad.append((p, 'cyclic holders are not cleared')); continue
+        # the wait loop must not block on the bounded worker queue: a worker that is still busy (e.g. in the middle of a memtable rotation) sends into the
+        # same queue; once the queue is full of close messages both sides wait for each other and the drop never finishes
+        blocking = [e for e in p.events if e.kind == 'CALL' and e.args.get('callee', '').endswith('Sender::send') and loads[0].idx < e.idx < loads[-1].idx]
+        if blocking:
+            bad.append((p, 'the wait loop of DatabaseInner::drop sends close messages with a blocking send into the bounded worker queue: with a worker that is itself about to send into that '
+                           'queue (rotation -> flush request) the queue fills up and drop and worker block each other; background threads never stop and the directory stays locked')); continue
         early = [e for e in p.events if e.kind == 'CALL' and e.args.get('callee', '').endswith(('FlushManager::clear', 'JournalManager::clear')) and e.idx < loads[-1].idx]
         late = [e for e in p.events if e.kind == 'CALL' and e.args.get('callee', '').endswith('FlushManager::clear') and e.idx > loads[-1].idx]
         if early and not late:
@@ -286,8 +301,36 @@ def check_drop(ctx):
         # on paths where nothing fails, the journal must be fsynced
         if not any(e.kind == 'F_SYNC_ALL' for e in p.events) and not any(e.fault is not None and ctx.sat(p.pc + [e.fault])[0] == z3.sat and ctx.sat(p.pc + [z3.Not(e.fault)])[0] == z3.unsat for e in p.events):
             bad.append((p, 'Journal::drop returns without syncing the journal'))
-    finish(ctx, ob, bad, 'drop/does-not-quiesce', lambda: native_lock_and_marker(ctx))
+    finish(ctx, ob, bad, 'drop/does-not-quiesce', lambda: native_drop_with_busy_worker(ctx))
     return ob
+
+
+def native_drop_with_busy_worker(ctx):
+    """the last handle is dropped while a worker thread is in the middle of a memtable rotation (parked at the journal lock by a hook); the worker then
+    finishes, queues its flush task and exits.  Afterwards the directory must be free: reopening in the same process succeeds and the data is there."""
+    big = '61' * 200
+    L = ['dir $DIR/db', 'workers_pausable 1', 'open workers=1', 'ks a memtable=64', 'arm_pause journal.get_writer', f'insert a 6b31 {big}', 'wait_parked journal.get_writer 4000',
+         'spawn_close D', 'join_timeout D 600', 'release journal.get_writer', 'join_timeout D 10000', 'workers_pausable 0', 'open workers=0', 'ks a', 'get a 6b31', 'close']
+    spath, out = ctx.run_scenario('\n'.join(L) + '\n', tag='drop-busy-worker')
+    rs = [(c, r) for _i, c, r in out]
+    if any(c == 'CRASH' for c, _r in rs):
+        return False, spath, 'replay ended abnormally: ' + rs[-1][1][-200:]
+    parked = [r for c, r in rs if c == 'wait_parked']
+    if not parked or not parked[0].startswith('ok'):
+        r2 = native_lock_and_marker(ctx)
+        return r2 if r2[0] else (False, spath, f'the worker did not reach the rotation ({parked})')
+    jt = [r for c, r in rs if c == 'join_timeout']
+    opens = [r for c, r in rs if c == 'open']
+    if len(jt) == 2 and jt[1] == 'pending':
+        return True, spath, 'dropping the database did not finish within 10 s after the busy worker was released'
+    if len(opens) == 2 and opens[1] != 'ok':
+        return True, spath, (f'the last handle was dropped while a worker was rotating a memtable; after the worker finished and exited, reopening the directory in the same process fails with {opens[1]}: '
+                             'something the worker queued keeps the keyspace (and the directory lock) alive')
+    g = [r for c, r in rs if c == 'get']
+    if g and not g[0].startswith('some:'):
+        return True, spath, f'data written before the drop is missing after reopen: {g[0]}'
+    r2 = native_lock_and_marker(ctx)
+    return r2 if r2[0] else (False, spath, 'held natively')
 
 
 # ------------------------------------------------------------------ native
@@ -371,6 +414,8 @@ def run(ctx):
 
 
 MUTANTS = [
+    {'name': 'revert: drop floods the worker queue with blocking sends', 'edits': [('src/db.rs', "            if self\n                .worker_pool\n                .sender\n                .try_send(WorkerMessage::Close)\n                .is_err()\n            {\n                let _ = self.worker_pool.rx.drain().count();\n            }", "            let _ = self.worker_pool.sender.send(WorkerMessage::Close);")]},
+    {'name': 'flush queue cleared before the workers stop only', 'edits': [('src/db.rs', "        let _ = self.worker_pool.rx.drain().count();\n\n        while self", "        let _ = self.worker_pool.rx.drain().count();\n        self.supervisor.flush_manager.clear();\n\n        while self"), ('src/db.rs', "        // IMPORTANT: Break cyclic Arcs\n        self.supervisor.flush_manager.clear();", "        // IMPORTANT: Break cyclic Arcs")]},
     {'name': 'check_version accepts V2', 'edits': [('src/db.rs', "if version != FormatVersion::V3 {", "if version != FormatVersion::V3 && version != FormatVersion::V2 {")]},
     {'name': 'lock acquired after journal recovery', 'edits': [('src/db.rs', """        let lock_file = LockedFileGuard::try_acquire(&config.path.join(LOCK_FILE))?;
 
